@@ -813,7 +813,7 @@ def explore(ctx: Ctx) -> Exploration:
         "disagreements_checked": len(cases),
         "correspondence_disagreements": len(corr),
         "oracle_failures": len(orc),
-        "corpus": n_corpus, "exhaustive": n_exh, "random": n_random,
+        "corpus": n_corpus, "exhaustive_cases": n_exh, "random": n_random,
         "out_of_scope_candidates": len(candidates),
         "samples": samples,
         "distribution": {"generated": dict(sorted(dist.items())), "errors_hit": dict(sorted(errs.items()))},
